@@ -1252,11 +1252,12 @@ rrul_fill_mly(echs_instant_t *restrict tgt, size_t nti, rrulsp_t rr)
 
 		if (tmp > 0 ||
 		    echs_shift_bday_p(rr->shift) &&
-		    !echs_shift_neg_p(rr->shift) && tmp >= 0) {
+		    !echs_shift_neg_p(rr->shift) && tmp > -3) {
 			/* go back far enough: months have at least 28 days
 			 * and a business day shift may add a weekend,
-			 * even one of naught business days */
-			m -= 1 + (tmp + 3) / 28;
+			 * even one of naught business days, even after
+			 * going back a day or two */
+			m -= 1 + ((tmp > 0 ? tmp : 0) + 3) / 28;
 		} else if (tmp < -4) {
 			/* skip months that cannot reach the proto again:
 			 * months have at most 31 days */
